@@ -75,6 +75,7 @@ func resetTerms() {
 	errSeq = 0
 	pureCache = map[*ssa.Function]int{}
 	resetHarnessState()
+	fpIgnoreZeroSign = false
 }
 
 // runItem executes one harness (one partition of it) symbolically.
